@@ -810,7 +810,7 @@ def check_append(ctx, rule):
     f = Bc.find_method("append")
     if f is None or Bc.find_setter("data") is None or Bc.find_getter("data") is None or Bc.find_getter("data_len") is None:
         raise Undecided("Buffer lacks append / data / data_len")
-    ops = [("append", "<a"), ("append", "b>"), ("append", ""), ("set", "x"), ("set", ""), ("drop1", None)]
+    ops = [("append", " <a"), ("append", "b> \n"), ("append", ""), ("set", "x"), ("set", ""), ("drop1", None)]
     seqs = [s for k in (1, 2, 3) for s in _it.product(ops, repeat=k)]
     bad = None
     n = 0
